@@ -1,4 +1,5 @@
 //! C10 — restarting from persisted state is safe at every crash point.
+use netsim::ext_c10::*;
 use netsim::ops::*;
 use netsim::oracle_commit::*;
 use netsim::oracle_revoke::*;
@@ -9,40 +10,48 @@ use serde::{Deserialize, Serialize};
 use serde_json::json;
 use vcore::*;
 
+/// One crash: after operation `after` (index into the flow) node `node` restarts from the `snap`-th newest
+/// manager snapshot and durable (or, if `landed`, latest written) monitors.
+#[derive(Clone, Debug, Serialize, Deserialize)]
+struct Crash {
+	after: u16,
+	node: u16,
+	snap: u16,
+	landed: bool,
+}
+
 #[derive(Clone, Debug, Serialize, Deserialize)]
 struct Case {
 	spec: WorldSpec,
-	ops: Vec<Op>,
+	flow: Vec<Op>,
+	/// snapshot the manager after an op when it says it needs persistence and this bit (cycled) is set
+	snap_bits: Vec<bool>,
+	crashes: Vec<Crash>,
+	/// operations between the crashes / after the last crash, before the final settle
+	recovery: Vec<Op>,
 }
 
 fn weights() -> OpWeights {
-	OpWeights {
-		send: 26,
-		claim: 12,
-		fail: 5,
-		deliver: 40,
-		flush: 4,
-		events: 14,
-		forwards: 14,
-		disconnect: 3,
-		reconnect: 12,
-		setfee: 1,
-		timer: 0,
-		async_toggle: 8,
-		complete: 12,
-		pump: 8,
-		force_close: 0,
-		tamper_revoke: 0,
-		mine: 0,
-		reorg: 0,
-		set_style: 0,
-		snapshot: 14,
-		restart: 8,
-	}
+	OpWeights { send: 26, claim: 14, fail: 5, deliver: 44, flush: 2, events: 16, forwards: 16, disconnect: 3, reconnect: 8, setfee: 1, async_toggle: 8, complete: 12, pump: 5, ..OpWeights::zero() }
+}
+
+fn recovery_weights() -> OpWeights {
+	OpWeights { claim: 6, deliver: 30, events: 12, forwards: 12, reconnect: 30, complete: 10, pump: 10, ..OpWeights::zero() }
+}
+
+fn crash_strat() -> impl Strategy<Value = Crash> {
+	(any::<u16>(), any::<u16>(), prop_oneof![Just(0u16), 0u16..3, any::<u16>()], any::<bool>()).prop_map(|(after, node, snap, landed)| Crash { after, node, snap, landed })
 }
 
 fn strat(max_ops: usize) -> impl Strategy<Value = Case> {
-	(world_spec(vec![Topology::Pair, Topology::Line3, Topology::Line3]), proptest::collection::vec(op_strategy(weights()), 15..max_ops)).prop_map(|(spec, ops)| Case { spec, ops })
+	(
+		world_spec(vec![Topology::Pair, Topology::Line3, Topology::Line3, Topology::Diamond]),
+		proptest::collection::vec(op_strategy(weights()), 10..max_ops),
+		proptest::collection::vec(proptest::bool::weighted(0.6), 7),
+		proptest::collection::vec(crash_strat(), 1..3),
+		proptest::collection::vec(op_strategy(recovery_weights()), 0..12),
+	)
+		.prop_map(|(spec, flow, snap_bits, crashes, recovery)| Case { spec, flow, snap_bits, crashes, recovery })
 }
 
 fn oracle(c: &Case, ctx: &mut Ctx) -> CaseResult {
@@ -54,38 +63,149 @@ fn oracle(c: &Case, ctx: &mut Ctx) -> CaseResult {
 	r
 }
 
-fn oracle_inner(c: &Case, ctx: &mut Ctx, sim: &mut Sim) -> CaseResult {
-	for i in 0..sim.w.n {
-		sim.snapshot_manager(i);
+fn pending_htlcs(sim: &Sim) -> usize {
+	let mut n = 0;
+	for (ci, c) in sim.chans.iter().enumerate() {
+		if let Some(d) = sim.chan_details(c.a, ci) {
+			n += d.pending_inbound_htlcs.len() + d.pending_outbound_htlcs.len();
+		}
 	}
+	n
+}
+
+fn oracle_inner(c: &Case, ctx: &mut Ctx, sim: &mut Sim) -> CaseResult {
+	let n = sim.w.n;
 	let mut ro = RevokeOracle::new(sim);
+	let mut so = RestartOracle::new(sim);
 	let mut keys = initial_keys_map(sim);
-	let mut tags: Vec<&'static str> = vec![];
-	let mut restarts = 0;
-	for op in c.ops.iter() {
+	for i in 0..n {
+		sim.snapshot_manager(i);
+		so.note_snapshot(sim, i);
+	}
+	// crash positions in flow order
+	let mut crashes: Vec<(usize, &Crash)> = c.crashes.iter().map(|k| (pick(k.after, c.flow.len() + 1), k)).collect();
+	crashes.sort_by_key(|(a, _)| *a);
+	let mut tags: Vec<String> = vec![];
+	let mut snap_i = 0;
+	let mut crashed = 0;
+	let do_crash = |sim: &mut Sim, so: &mut RestartOracle, ro: &mut RevokeOracle, keys: &mut std::collections::BTreeMap<(usize, [u8; 32]), usize>, k: &Crash, ctx: &mut Ctx, tags: &mut Vec<String>| -> CaseResult {
+		let node = pick(k.node, n);
+		let pend = pending_htlcs(sim);
+		let inflight = sim.w.pending_updates(node).len();
+		so.stats.htlcs_pending_at_crash += pend as u64;
+		if k.landed && inflight > 0 {
+			ctx.label("async-write-landed-at-crash");
+		}
+		if !k.landed && inflight > 0 {
+			so.stats.async_write_lost += 1;
+			ctx.label("async-write-lost-at-crash");
+		}
+		let r = sim.restart(node, k.snap, k.landed);
+		tags.push(format!("CRASH n{} snap{} landed={} pending_htlcs={} inflight_updates={}", node, k.snap, k.landed, pend, inflight));
+		so.step(sim)?;
+		ro.step(sim, keys)?;
+		if let Err(e) = r {
+			return Err(Failure::new("restart-deserialization", e));
+		}
+		// the restarted node persists its manager once it is up (as a real node does on start)
+		sim.snapshot_manager(node);
+		so.note_snapshot(sim, node);
+		Ok(())
+	};
+	let mut next_crash = 0;
+	for (i, op) in c.flow.iter().enumerate() {
+		while next_crash < crashes.len() && crashes[next_crash].0 == i {
+			do_crash(sim, &mut so, &mut ro, &mut keys, crashes[next_crash].1, ctx, &mut tags)?;
+			crashed += 1;
+			next_crash += 1;
+			// a few recovery operations before the flow continues
+			for rop in c.recovery.iter().take(4) {
+				tags.push(apply(sim, &c.spec, rop).to_string());
+				so.step(sim)?;
+				ro.step(sim, &mut keys)?;
+			}
+		}
 		let tag = apply(sim, &c.spec, op);
-		tags.push(tag);
-		if tag == "restart-failed" {
-			return Err(Failure::new("restart-deserialization", format!("restart from legally persisted state failed: {:?}", sim.last_restart_error)));
+		tags.push(tag.to_string());
+		so.step(sim)?;
+		ro.step(sim, &mut keys)?;
+		// manager persistence as the background processor would do it, at generated moments
+		for nd in 0..n {
+			if sim.w.nodes[nd].node.get_and_clear_needs_persistence() {
+				let bit = c.snap_bits[snap_i % c.snap_bits.len()];
+				snap_i += 1;
+				if bit {
+					sim.snapshot_manager(nd);
+					so.note_snapshot(sim, nd);
+				}
+			}
 		}
-		if tag == "restart" {
-			restarts += 1;
-		}
+	}
+	while next_crash < crashes.len() {
+		do_crash(sim, &mut so, &mut ro, &mut keys, crashes[next_crash].1, ctx, &mut tags)?;
+		crashed += 1;
+		next_crash += 1;
+	}
+	for rop in c.recovery.iter() {
+		tags.push(apply(sim, &c.spec, rop).to_string());
+		so.step(sim)?;
 		ro.step(sim, &mut keys)?;
 	}
-	ctx.label_if(restarts > 0, "restarted");
-	ctx.label_if(restarts > 1, "restarted-twice+");
-	ctx.nontrivial_if(restarts > 0);
-	ctx.summary(json!({"ops": tags}));
+	// resolve whatever became claimable, then drive everything (off-chain and on-chain) to resolution
+	for round in 0..3 {
+		sim.settle(30);
+		let cands: Vec<usize> = sim.pays.iter().filter(|p| p.state == PayState::Claimable).map(|p| p.idx).collect();
+		if cands.is_empty() && round > 0 {
+			break;
+		}
+		for (j, p) in cands.iter().enumerate() {
+			if j % 3 == 2 {
+				sim.fail_back(*p);
+			} else {
+				sim.claim(*p);
+			}
+		}
+		so.step(sim)?;
+		ro.step(sim, &mut keys)?;
+	}
+	let (resolved, mined) = sim.settle_with_chain(400);
+	so.step(sim)?;
+	ro.step(sim, &mut keys)?;
+	so.finish(sim, resolved)?;
+	let st = &so.stats;
+	ctx.label(if resolved { "fully-resolved" } else { "not-resolved-within-bound" });
+	ctx.label_if(st.stale_manager_closures > 0, "stale-manager-closure");
+	ctx.label_if(st.manager_lagged > 0, "manager-lagged-behind-monitor");
+	ctx.label_if(crashed > 1, "crashed-twice");
+	ctx.label_if(mined > 0, "on-chain-resolution");
+	ctx.label_if(st.claimed_then_sent > 0, "claim-replayed-to-sender");
+	ctx.label_if(st.htlcs_pending_at_crash > 0, "htlcs-pending-at-crash");
+	ctx.label(match c.spec.topo {
+		Topology::Pair => "topo:pair",
+		Topology::Diamond => "topo:diamond",
+		_ => "topo:line3",
+	});
+	ctx.sub_evaluations(st.broadcasts_checked + st.payments_sent + st.payments_failed);
+	ctx.nontrivial_if(st.htlcs_pending_at_crash > 0 && (st.manager_lagged > 0 || st.async_write_lost > 0 || st.stale_manager_closures > 0));
+	ctx.summary(json!({"topo": format!("{:?}", c.spec.topo), "type": format!("{:?}", c.spec.ctype), "trace": tags, "blocks_mined": mined}));
 	Ok(())
 }
 
 fn main() {
 	install_recording_signer();
 	let mut c = Check::new("C10", "fault_enumeration");
+	c.assume("the restarted node gets, per channel, the durable monitor image (every completed update) or the latest written one, and any earlier-written ChannelManager; monitors and manager are synced to the chain tip separately before use, as documented");
+	c.assume("crash points are the points between two harness operations (each operation performs at most a few durable writes); crashes inside one library call are not generated");
+	c.assume("liveness clauses are decided at a bounded horizon (up to 400 blocks mined); runs that do not resolve are labelled, not failed");
 	c.part_with(
-		PartSpec { name: "restart-sampled", rule: "wip", quick_cases: 1500, thorough_cases: 60_000, max_shrink: 400 },
-		|| strat(70),
+		PartSpec {
+			name: "restart-sampled",
+			rule: "pair / line / diamond worlds, generated payment flows with async persistence; manager snapshots at generated persistence points; 1-2 crashes at generated positions (second possibly during recovery) restarting a generated node from a generated snapshot lag and durable-or-landed monitors; then reconnect, resolve payments, mine to full resolution. Checked: deserialization succeeds, monitor-ahead channels are closed as OutdatedChannelManager and not resumed, revocation rules hold across restarts, every broadcast is consensus-valid, PaymentSent is truthful and never contradicted, a claim acknowledged to the recipient reaches PaymentSent at the sender. Non-trivial: HTLCs pending at the crash and the manager lagged a monitor or an async write was lost",
+			quick_cases: 1200,
+			thorough_cases: 60_000,
+			max_shrink: 300,
+		},
+		|| strat(60),
 		oracle,
 	);
 	c.finish();
